@@ -453,7 +453,13 @@ impl FarmGen {
         let pid = self.pool_ids.choose(&mut self.rng)?.clone();
         let p = obs.pools.get(&pid)?;
         let ppm = log_uniform(&mut self.rng, 1, 20_000);
-        let funds: Vec<Coin> = p.info.assets.iter().map(|c| coin((c.amount.u128() / 1_000_000 * ppm).max(1), c.denom.clone())).collect();
+        let mut funds: Vec<Coin> = p.info.assets.iter().map(|c| coin((c.amount.u128() / 1_000_000 * ppm).max(1), c.denom.clone())).collect();
+        // a third of the locked deposits are single-asset ones (the pool manager then swaps half
+        // internally and locks the LP in a second, self-sent step)
+        if p.info.assets.len() == 2 && self.rng.gen_range(0..3) == 0 {
+            let k = self.rng.gen_range(0..2);
+            funds.remove(k);
+        }
         let mine: Vec<&Position> = f.positions.values().filter(|q| q.receiver == sender && q.lp_asset.denom == p.info.lp_denom).collect();
         let others: Vec<&Position> = f.positions.values().filter(|q| q.receiver != sender).collect();
         self.n_explicit += 1;
